@@ -703,6 +703,8 @@ func c09Run(c *core.Ctx) {
 			}
 		}
 	}
+	// the DNN value accessor (label form, not a bit range)
+	c.Add("evaluations", c09DnnRun(c))
 	// every accessor of the registry is touched once (process-wide state that any of them builds up is now present)
 	c09WarmAll()
 	// second pass in reverse order with the boundary values: an accessor must not depend on which other accessors ran
